@@ -275,14 +275,31 @@ func (fr *Frame) applyContract(st *State, fc *FuncContract, key string, callee *
 		}
 		vc.oblige("pre", top.oblFn, fr.oblName("call:"+shortKey(key)+"/requires"), cond, t, fr.pos(pos), c.Text)
 	}
+	// totality: a caller that claims nopanic may rely on the callee only as far as the callee's contract excludes panics
+	if top.nopanic && !top.lockOnly && !fc.Extern && !fc.Trusted {
+		switch {
+		case fc.NoPanicIf != nil:
+			t, err := env.EvalBool(fc.NoPanicIf.E)
+			if err != nil {
+				fr.specError(fc.NoPanicIf, err)
+			} else {
+				vc.oblige("pre", top.oblFn, fr.oblName("call:"+shortKey(key)+"/nopanic-if"), andAll(cond, top.nopanicGuard), t, fr.pos(pos), "callee excludes panics only if: "+fc.NoPanicIf.Text)
+			}
+		case !fc.NoPanic:
+			vc.assumptions["nopanic unit calls "+key+" whose contract does not exclude panics (assumed to return)"] = true
+		}
+	}
 	pre := st.Clone()
-	fr.applyModifies(st, fc, env, view)
+	// the callee may allocate: advance the allocation watermark BEFORE havocing the modified locations, so that a
+	// havoced pointer-valued location may hold an object allocated by the callee (its well-formedness fact is
+	// "allocated in the post-state", not "allocated before the call")
 	if !fc.Pure {
 		t0 := vc.top(pre)
 		t1 := vc.fresh("top", "Int")
 		vc.axiom("(>= " + t1 + " " + t0 + ")")
 		st.heap["top"] = t1
 	}
+	fr.applyModifies(st, fc, env, view)
 	var results []Val
 	for i, t := range sigResults(sig) {
 		nv := vc.freshVal(fmt.Sprintf("%s_r%d", shortKey(key), i), t)
@@ -325,8 +342,12 @@ func (fr *Frame) applyModifies(st *State, fc *FuncContract, env *Env, view strin
 		}
 		return
 	}
+	// every target denotes a location of the PRE-state: evaluate all of them in a snapshot taken before the first
+	// havoc, so that `modifies x.s, x.s[:]` havocs the backing array x.s had at the call
+	penv := *env
+	penv.st = st.Clone()
 	for _, m := range fc.modifiesFor(view) {
-		if err := fr.havocTarget(st, m, env); err != nil {
+		if err := fr.havocTarget(st, m, &penv); err != nil {
 			vc.prog.specErrors = append(vc.prog.specErrors, fmt.Sprintf("%s:%d: modifies %s: %v", fc.File, fc.Line, m.String(), err))
 		}
 	}
@@ -406,7 +427,7 @@ func (fr *Frame) havocTarget(st *State, m Expr, env *Env) (err error) {
 				return nil
 			}
 			if pt, ok := f.Type().Underlying().(*types.Pointer); ok {
-				cur = vc.readField(st, curS, f, cur).C[0]
+				cur = vc.readField(env.st, curS, f, cur).C[0]
 				curS = pt.Elem()
 			} else {
 				cur = vc.emb(curS, f.Name(), cur)
